@@ -186,7 +186,7 @@ def gen(tier, rng):
             # every other merged case uses channel maps with holes (dead channels): the raw-index inversion
             # is claimed for arbitrary maps
             c = M.merge_case(rng, nprobes=[1, 2, 3, 4][i % 4], gapped=(i % 2 == 0))
-            yield dict(p=PID, probes=c['probes'], factor=[1, 2.5][i % 2], n_closest=rng.pick([2, 3, 12]))
+            yield dict(p=PID, probes=c['probes'], dirnames=c['dirnames'], factor=[1, 2.5][i % 2], n_closest=rng.pick([2, 3, 12]))
         else:
             spec = DC.dense_spec(rng, raw=(i % 4 == 1), feats=(i % 2 == 0), probes=(i % 5 == 0), empty=['none', 'last', 'middle'][i % 3])
             yield dict(p=PID, spec=spec, factor=[1, 2.5][i % 2], label=['', 'probe00'][i % 7 == 0], n_closest=rng.pick([2, 3, 12]),
